@@ -170,8 +170,8 @@ impl Check for C12 {
     }
     fn runs(&self, tier: Tier) -> u64 {
         match tier {
-            Tier::Quick => 6_000,
-            Tier::Thorough => 300_000,
+            Tier::Quick => 200_000,
+            Tier::Thorough => 6_000_000,
         }
     }
 
